@@ -368,7 +368,7 @@ OBSERVERS = [
                                 m.linear_fingerprint(1, 4).tolist(), m.morgan_fingerprint(1, 3).tolist()]),
     ('hydrogens_total', lambda m: [(n, a.total_hydrogens, round(a.atomic_mass, 6), hash(a)) for n, a in m.atoms()]),
     ('depict', lambda m: _UUID.sub('ID', m.depict(clean2d=False))),      # element ids are uuid4 values: the one random part, masked
-    ('hash_smiles', lambda m: [_canon(m.linear_hash_smiles(1, 3)), _canon(m.morgan_hash_smiles(1, 2))]),
+    ('hash_smiles', lambda m: [_canon(m.linear_hash_smiles(1, 2)), _canon(m.morgan_hash_smiles(1, 1))]),
 ]
 OBS_INDEX = {k: i for i, (k, _) in enumerate(OBSERVERS)}
 # pure functions of the graph alone: may be read (and must be right) inside an open transaction, where atom labels are
